@@ -725,6 +725,14 @@ func (env *specEnv) evalCall(e *SExpr) sval {
 			env.fail(e, "macstr needs a byte slice")
 		}
 		return sval{fv.hwaddrStr(env.cur, v.t), types.Typ[types.String]}
+	case "netcontains":
+		// netcontains(n, ip): what n.Contains(ip) yields in the current state (n a *net.IPNet)
+		nv := env.eval(args[0])
+		v := env.eval(args[1])
+		if v.t.Sort != SliceSort || nv.typ == nil {
+			env.fail(e, "netcontains needs a *net.IPNet and a byte slice")
+		}
+		return boolVal(fv.netContains(env.cur, nv.t, nv.typ, v.t))
 	case "hexstr":
 		// hexstr(b): the string encoding/hex.EncodeToString(b) yields in the current state
 		v := env.eval(args[0])
@@ -745,6 +753,18 @@ func (env *specEnv) evalCall(e *SExpr) sval {
 		return mathVal(fv.ipKey(env.cur, v.t))
 	case "now":
 		return mathVal(env.cur.now)
+	case "fnv1a64":
+		// fnv1a64(s, n): 64-bit FNV-1a (hash/fnv) of the first n bytes of the byte slice s in the
+		// current state, defined by its recurrence over the engine's bit_xor symbol
+		v := env.eval(args[0])
+		n := env.eval(args[1])
+		if v.t.Sort != SliceSort {
+			env.fail(e, "fnv1a64 needs a byte slice")
+		}
+		key := fv.memKey(types.Typ[types.Uint8])
+		fv.instFrames(key, slArr(v.t))
+		fv.declareFNV()
+		return mathVal(smt.App(smt.Int, "fnv1a64", smt.Select(fv.heapGet(env.cur, key), slArr(v.t)), slOff(v.t), n.t))
 	case "pow2":
 		v := env.eval(args[0])
 		if n, ok := smt.IntVal(v.t); ok && n.Sign() >= 0 && n.Cmp(big.NewInt(256)) <= 0 {
@@ -867,6 +887,23 @@ func (env *specEnv) callRecPure(pf *PureFunc, args []*SExpr) sval {
 		as = append(as, env.eval(a).t)
 	}
 	return sval{smt.App(retSort, fname, as...), retTy}
+}
+
+// declareFNV axiomatises fnv1a64(a, o, n): offset basis for n <= 0, otherwise
+// ((fnv1a64(a, o, n-1) xor a[o+n-1]) * prime) mod 2^64.
+func (fv *funcVerifier) declareFNV() {
+	if fv.c.Has("fnv1a64") {
+		return
+	}
+	fv.c.DeclareFun("bit_xor", []string{smt.Int, smt.Int}, smt.Int)
+	fv.c.DeclareFun("fnv1a64", []string{smt.Arr(smt.Int, smt.Int), smt.Int, smt.Int}, smt.Int)
+	a := smt.Term{S: "fn_a", Sort: smt.Arr(smt.Int, smt.Int)}
+	o, n := smt.Term{S: "fn_o", Sort: smt.Int}, smt.Term{S: "fn_n", Sort: smt.Int}
+	f := func(k smt.Term) smt.Term { return smt.App(smt.Int, "fnv1a64", a, o, k) }
+	basis, _ := new(big.Int).SetString("14695981039346656037", 10)
+	prime := big.NewInt(1099511628211)
+	step := smt.Mod(smt.Mul(smt.App(smt.Int, "bit_xor", f(smt.Sub(n, smt.IntLit(1))), smt.Select(a, smt.Add(o, smt.Sub(n, smt.IntLit(1))))), smt.BigLit(prime)), smt.BigLit(pow2(64)))
+	fv.c.Axiom("fnv1a64_def", smt.Forall([]smt.Term{a, o, n}, smt.Eq(f(n), smt.Ite(smt.Le(n, smt.IntLit(0)), smt.BigLit(basis), step)), f(n)), "fnv1a64")
 }
 
 func (fv *funcVerifier) declarePow2() {
